@@ -219,8 +219,11 @@ def part_constants(ctx, rng, work, events, meta, quick):
             events.append({"k": "const", "ok": True, "same": bool(orig == base)})
             meta.append({"part": "constants", "source": name, "order": "as written", "diff": [k for k in orig if orig[k] != base.get(k)]})
         # the same file through the set-up functions (fresh start and restart): the constants they return are those of the file
-        npts = data.get("npts", [256, 512, 32, 128])
-        if int(np.prod(npts)) <= 20000:
+        npts = base.get("npts", [256, 512, 32, 128])          # what the parser returns for this file is what the set-up would build
+        if list(npts) != list(data.get("npts", npts)):
+            events.append({"k": "const", "ok": True, "same": False})
+            meta.append({"part": "constants", "source": name, "order": "as written", "diff": ["npts"]})
+        elif int(np.prod(npts)) <= 20000:
             import warnings
             from pygyro.initialisation.setups import setupCylindricalGrid, setupFromFile
             from harness import h5emu
